@@ -73,6 +73,7 @@ def replay_chunk(args):
     fails = []
     stats = {"evals": 0, "nontrivial": 0, "ill": 0, "traces": [], "gcc": 0, "gcc_dis": 0, "bases": []}
     for si, sc in enumerate(scens):
+        core.tick(sc, 300)
         if not scen.well_formed(sc) or any(r["warns"] for r in sc["res"]):
             stats["ill"] += 1
             continue
